@@ -4,7 +4,7 @@
    recover.  Proved once, for ANY table; instantiated per property. *)
 From Coq Require Import String ZArith Bool List Lia.
 From RecordUpdate Require Import RecordSet.
-From PS Require Import Base.Wrap Model.Data Model.Actions Model.Fsm Proofs.Monad.
+From PS Require Import Base.Wrap Model.Data Model.Actions Model.Fsm Model.History Proofs.Monad.
 Import ListNotations RecordSetNotations.
 Open Scope Z_scope.
 
@@ -49,11 +49,6 @@ Strategy opaque [event_loop exec loop_fuel action_fuel pay_loop].
 Arguments event_loop : simpl never.
 Arguments exec : simpl never.
 Arguments send_event : simpl never.
-
-(* the data of the last DURABLE record while walking a trace *)
-Definition lp_step (lp : swap_data) (e : effect) : swap_data :=
-  match e with EPersist _ d true => d | _ => lp end.
-Definition lp_end (lp : swap_data) (es : list effect) : swap_data := fold_left lp_step es lp.
 
 (* every effect satisfies P relative to the record that was durable when it happened *)
 Fixpoint trace_ok (P : swap_data -> effect -> Prop) (lp : swap_data) (es : list effect) : Prop :=
